@@ -30,8 +30,38 @@ META = {
 SERIES = ("log_norm_ratio", "log_norm_ratio_var")
 
 
+def inf_rule(ctx, rule="C08.inf"):
+    """A particle with log-likelihood -inf (a hard cut) has incremental weight 0: the
+    log-likelihood (and log-prior) may enter the incremental log-weight only through
+    products whose coefficient is the temperature *difference* -- never through a
+    product with a single temperature, which is 0 for the initial population
+    (0 * -inf = NaN) and makes the difference of two tempered densities inf - inf."""
+    from ..evalr import Evaluator, is_scalar
+    repo = ctx.repo
+    S = repo.cls("aspire.samples:SMCSamples")
+    m = S.resolve("unnormalized_log_weights")
+    ev = Evaluator(repo, max_depth=2)
+    ev.run(m, S)
+    b = T.atom(m.params[1])
+    diff = T.sub(b, self_attr("beta"))
+    hot = {self_attr("log_likelihood"), self_attr("log_prior")}
+    bad, n = [], 0
+    for a_, b_, node, f in ev.products:
+        for coef, val in ((a_, b_), (b_, a_)):
+            if any(x in hot for x in T.subterms(val)) and not any(x in hot for x in T.subterms(coef)):
+                n += 1
+                if coef not in (diff, T.neg(diff)) and T.const_value(coef) in (None, 0):
+                    bad.append((coef, val, node, f))
+    ctx.floor("products with the log-likelihood in the incremental weight", n, 1)
+    ctx.decide(not bad, rule, m.ident, loc_of(bad[0][3] if bad else m, bad[0][2] if bad else None),
+               "log-likelihood and log-prior enter the incremental log-weight only multiplied by the temperature difference (beta - self.beta), which is never 0 along the schedule",
+               (f"the incremental log-weight multiplies {T.show(bad[0][1])[:60]} by {T.show(bad[0][0])[:40]}, which is 0 for a population at that temperature (the initial one has beta = 0): "
+                "a particle with log-likelihood -inf gets 0 * -inf = NaN instead of weight 0, so log_weights raises / the evidence ratio is NaN") if bad else "")
+
+
 def run(ctx):
     repo = ctx.repo
+    inf_rule(ctx)
     S = repo.cls("aspire.samples:SMCSamples")
     N = T.app("len", self_attr("x"))
     # ---- identities
@@ -191,6 +221,7 @@ def run(ctx):
 _B = "src/aspire/samplers/smc/base.py"
 _S = "src/aspire/samples.py"
 MUTANTS = [
+    M("incremental weight as a difference of tempered densities", _S, "return (self.beta - beta) * self.log_q + (beta - self.beta) * (\n            self.log_likelihood + self.log_prior\n        )", "return self.log_p_t(beta) - self.log_p_t(self.beta)", "C08.inf"),
     M("ratio drops -log N", _S, "log_w = self.unnormalized_log_weights(beta)\n        return logsumexp(log_w) - math.log(len(self.x))", "log_w = self.unnormalized_log_weights(beta)\n        return logsumexp(log_w)", "C08.ratio"),
     M("variance reported as nan unless degenerate", _S, "if mean_w != 0 else self.xp.nan", "if mean_w == 0 else self.xp.nan", "C08.var"),
     M("variance not divided by N", _S, "var_w / (len(self) * (mean_w**2))", "var_w / (mean_w**2)", "C08.var"),
@@ -212,6 +243,7 @@ MUTANTS += [
     M("checkpoint shares the ratio lists", _B, "history_copy = copy.deepcopy(self.history)", "history_copy = copy.copy(self.history)", "C08.ckpt"),
 ]
 NEUTRALS = [
+    M("incremental weight with the difference named", _S, "return (self.beta - beta) * self.log_q + (beta - self.beta) * (\n            self.log_likelihood + self.log_prior\n        )", "db = beta - self.beta\n        return db * (self.log_likelihood + self.log_prior) - db * self.log_q"),
     M("history through a local alias", _B, "self.history.log_norm_ratio.append(log_evidence_ratio)", "hist = self.history\n                hist.log_norm_ratio.append(log_evidence_ratio)"),
     M("ratio via temporary names", _B, "log_evidence_ratio = samples.log_evidence_ratio(beta)", "lz = samples.log_evidence_ratio(beta)\n                log_evidence_ratio = lz"),
     M("variance regrouped", _S, "var_w / (len(self) * (mean_w**2))", "(var_w / mean_w**2) / len(self.x)"),
